@@ -214,7 +214,7 @@ REPLACE_NOTE = {
  "C18": "PARTIAL by nature: the kernel signal/ppoll contract is a hypothesis (a watched signal is blocked outside ppoll and delivered by the next ppoll, which returns EINTR). Holds for the repaired code (fix: b5fb3ed, e0a376f, 5dc9719, 5568265, 2af2153, 25c7eb9, 26151f4, 89e79c0); pinned code refuted (C18_*_refuted_*). Proved: refinement of the iteration model to the snapshot specification (C18_refines: log equality for every script and ppoll outcome stream, descriptors >= 0), incl. callbacks that cancel/register/stop and the SIGINT watch of tickit_run; the self-pipe fallback refines its own snapshot specification (C18_fallback_refines). C18_signal_reaches alone (pending set empty) would be satisfied by a model that drops signals; its content comes together with C18_refines and C18_all_watchers_invoked. Implementation = model is tested, not proved.",
 }
 APPEND_NOTE = {
- "C01": " QUALIFIER (audit, then partly closed): the rectangle-set loops of the window model run on a fuel that is a field of the model state (300 in the extracted model the C is compared with); every history/flush theorem holds for EVERY fuel under the hypothesis that no loop ran out of the state's fuel (r_fault = false). For histories WITHOUT scroll operations some fuel provably suffices: C01_history_total / C01_history_total_flushed (there is a fuel such that, with it and every larger one, the run does not fault, the invariant holds, and after a final flush every cell shows the composition), from C05's termination theorems and fuel monotonicity (C01_run_fuel_monotone covers every operation incl. scrolls). For histories with scrolls the 'exists fuel' half is not proved: those theorems stay conditional on r_fault = false. C01_nested_* (a handler that flushes the root or changes geometry) proves the flag and id-uniqueness invariants only, and C01_history_xterm excludes flush and terminal resize.",
+ "C01": " QUALIFIER (audit, then CLOSED): the rectangle-set loops of the window model run on a fuel that is a field of the model state (300 in the extracted model the C is compared with); every history/flush theorem holds for EVERY fuel under the hypothesis that no loop ran out of the state's fuel (r_fault = false), and for EVERY history over the whole alphabet, the three scroll operations with any scroll oracle included, some fuel provably suffices: C01_history_total_all / C01_history_total_flushed_all (there is a fuel such that, with it and every larger one, the run faults nowhere, the invariant holds, and after a final flush every cell shows the composition), from C05's termination theorems for add, subtract and contains, fuel monotonicity (C01_run_fuel_monotone) and progress of _scroll (C01_scroll_progress, C01_step_progress_all: rs_sub_vis, rs_clip, scroll_region, shift_damage and the scroll_one loop, WinFuelTotalScroll.v); non-vacuous for a history with a scroll (C01_history_total_example_sides, C01_history_total_example). The side condition sides_along (fresh ids, no show/hide/geometry change of the root, visible windows non-empty for scrolls, ...) remains, and no explicit bound on the fuel is given. C01_nested_* (a handler that flushes the root or changes geometry) proves the flag and id-uniqueness invariants only, and C01_history_xterm excludes flush and terminal resize.",
  "C02": " QUALIFIER (audit): C02_rects_disjoint has the hypotheses ids_unique and Inv of the damage set, both discharged by C01's invariants (C01_forest_unique_*, C01_damage_inv); the fuel qualifier of C01 applies here too (theorems hold for every fuel, conditional on no loop running out of it).",
  "C15": " QUALIFIER (audit): the fuel qualifier of C01 applies to C15_requested / C15_flush / C15_history* (every fuel, conditional on no rectangle-set loop running out of it; C15_init_any_fuel).",
  "C14": " QUALIFIER (audit): C14_mutation_rest is stated for events that no handler claims; with a claimer present only self-close is covered (C14_mutation_self_partial). C14_term_key / C14_term_mouse(_seq) require tree height below the fuel 64 (explicit in the statements).",
